@@ -132,3 +132,133 @@ package obfs
 //@   ensures isnil(err) ==> n == len(p)
 //@   ensures !isnil(err) ==> n == 0
 //@   modifies any
+
+// ---------------------------------------------------------------------------
+// Gecko frames (C14, C03). Header: 0x80, msgID, chunkIdx<<4 | totalChunks,
+// padLen (big endian), then padLen padding bytes, then the chunk.
+
+//@ func encodeFrame
+//@   props C14 C03
+//@   requires disjoint2(out, payload)
+//@   ensures isnil(ret1) ==> h.totalChunks >= 2 && h.totalChunks <= 8 && h.chunkIdx < h.totalChunks && len(out) >= 5 + h.padLen + len(payload)
+//@   ensures !isnil(ret1) ==> ret0 == 0
+//@   ensures isnil(ret1) ==> ret0 == 5 + h.padLen + len(payload) && out[0] == 128 && out[1] == h.msgID && out[2] == h.chunkIdx * 16 + h.totalChunks
+//@       && out[3] == h.padLen >> 8 && out[4] == h.padLen % 256 && forall(k, 0, len(payload), out[5 + h.padLen + k] == payload[k])
+//@   modifies out[0:len(out)]
+//@ spec func disjoint2(a, b) = base(a) != base(b) || off(a) + len(a) <= off(b) || off(b) + len(b) <= off(a)
+
+// decodeFrame: total; accepts exactly frames with the fragment bit, 2..8 chunks, an index below
+// the count and the declared padding inside the datagram; the payload is the tail of the input.
+//@ spec func frameOK(in) = len(in) >= 5 && in[0] >= 128 && in[2] % 16 >= 2 && in[2] % 16 <= 8 && in[2] / 16 < in[2] % 16 && 5 + in[3] * 256 + in[4] <= len(in)
+//@ func decodeFrame
+//@   props C14 C03
+//@   ensures isnil(ret2) == frameOK(in)
+//@   ensures !isnil(ret2) ==> ret1 == nil
+//@   ensures isnil(ret2) ==> ret0.msgID == in[1] && ret0.chunkIdx == in[2] / 16 && ret0.totalChunks == in[2] % 16 && ret0.padLen == in[3] * 256 + in[4]
+//@       && ret0.totalChunks >= 2 && ret0.totalChunks <= 8 && ret0.chunkIdx < ret0.totalChunks
+//@       && base(ret1) == base(in) && off(ret1) == off(in) + 5 + ret0.padLen && len(ret1) == len(in) - 5 - ret0.padLen
+
+// round trip: a frame written by encodeFrame is accepted by decodeFrame with the same header and chunk
+//@ lemma FRAME_RT C14: forall(ci, forall(tc, forall(pl, 2 <= tc && tc <= 8 && 0 <= ci && ci < tc && 0 <= pl && pl <= 65535 ==> (ci * 16 + tc) % 16 == tc && (ci * 16 + tc) / 16 == ci && (pl >> 8) * 256 + pl % 256 == pl && pl >> 8 <= 255)))
+
+//@ func randIntn
+//@   props C14 C03
+//@   requires n <= 4294967295
+//@   ensures n <= 1 ==> ret == 0
+//@   ensures n > 1 ==> 0 <= ret && ret < n
+
+//@ func randomFragmentChunks
+//@   props C14 C03
+//@   ensures 2 <= ret && ret <= 8
+
+// randomPadLen: whenever the chunk can fit, salt + header + padding + chunk lies in [minPkt, maxPkt]
+//@ objinv geckoPacketConn: 0 < this.minPkt && this.minPkt <= this.maxPkt && this.maxPkt <= 2048 && this.inner != nil && len(this.readBuf) == 2048
+//@ func (*geckoPacketConn).randomPadLen
+//@   props C14 C03
+//@   requires chunkLen >= 0 && chunkLen <= 65535
+//@   ensures 13 + chunkLen > g.maxPkt ==> ret == 0
+//@   ensures 13 + chunkLen <= g.maxPkt ==> g.minPkt <= 13 + chunkLen + ret && 13 + chunkLen + ret <= g.maxPkt
+
+// ---------------------------------------------------------------------------
+// Gecko reassembly (C14, C03). sumR sums a row of chunk lengths; the table is guarded by g.mu.
+
+//@ spec rec func sumR(a, lo, n) = ite(n <= 0, 0, sumR(a, lo, n-1) + a[lo+n-1])
+//@ spec rec func cntR(a, lo, n) = ite(n <= 0, 0, cntR(a, lo, n-1) + ite(a[lo+n-1] == 0, 0, 1))
+//@ lemma SUMR_NONNEG C14 C03 (a intarray, lo int, n int) induction n: forall(j, a[j] >= 0) ==> sumR(a, lo, n) >= 0
+//@ lemma SUMR_UB C14 C03 (a intarray, lo int, n int) induction n: forall(j, 0 <= a[j] && a[j] <= 1099511627776) ==> sumR(a, lo, n) <= n * 1099511627776
+//@ lemma SUMR_MONO C14 C03 (a intarray, lo int, i int, n int) induction n: forall(j, a[j] >= 0) && 0 <= i && i <= n ==> sumR(a, lo, i) <= sumR(a, lo, n)
+//@ lemma CNTR_BOUND C14 C03 (a intarray, lo int, n int) induction n: 0 <= cntR(a, lo, n) && cntR(a, lo, n) <= n
+//@ lemma CNTR_UPD C14 C03 (a intarray, lo int, n int, j int, v int) induction n: lo <= j && a[j] == 0 && v != 0 ==> cntR(upd(a, j, v), lo, n) == cntR(a, lo, n) + ite(j < lo + n, 1, 0)
+//@ lemma CNTR_NIL C14 C03 (a intarray, lo int, n int) induction n: forall(i, lo, lo+n, a[i] == 0) ==> cntR(a, lo, n) == 0
+//@ lemma CNTR_HOLE C14 C03 (a intarray, lo int, n int, j int) induction n: lo <= j && j < lo + n && a[j] == 0 ==> cntR(a, lo, n) < n
+
+//@ ghost var muHeld Bool
+//@ hook call (*Mutex).Lock(m) in (*geckoPacketConn).acceptChunk | (*geckoPacketConn).gcExpired
+//@   update muHeld = true
+//@ hook call (*Mutex).Unlock(m) in (*geckoPacketConn).acceptChunk | (*geckoPacketConn).gcExpired
+//@   update muHeld = false
+//@ guard load geckoPacketConn.reassembly(obj)
+//@   props C14
+//@   requires muHeld
+//@ guard load geckoPacketConn.perSource(obj)
+//@   props C14
+//@   requires muHeld
+
+//@ spec func srcCount(g, a) = ite(indom(g.perSource, a), g.perSource[a], 0)
+
+// every pending entry is incomplete and consistent: chunk table of its declared size (2..8),
+// received = number of chunks present < total; per-source counters are positive
+//@ spec func entryOK(e) = e != nil && len(e.chunks) == e.total && e.total >= 2 && e.total <= 8
+//@     && e.received == cntR(row(e.chunks, "base"), off(e.chunks), len(e.chunks)) && e.received < e.total
+
+// dropEntryLocked: removes exactly that key (if present) and gives its slot back to its source
+//@ func (*geckoPacketConn).dropEntryLocked
+//@   props C14 C03
+//@   nonil
+//@   requires muHeld && g.reassembly != nil && g.perSource != nil
+//@   requires indom(g.reassembly, k) ==> srcCount(g, k.addr) >= 1
+//@   ensures muHeld
+//@   ensures !indom(g.reassembly, k) && len(g.reassembly) == old(len(g.reassembly)) - ite(old(indom(g.reassembly, k)), 1, 0)
+//@   ensures srcCount(g, k.addr) == old(srcCount(g, k.addr)) - ite(old(indom(g.reassembly, k)), 1, 0)
+//@   ensures forallStr(a, a != k.addr ==> srcCount(g, a) == old(srcCount(g, a)))
+//@   ensures forallStr(a, indom(g.perSource, a) ==> g.perSource[a] >= 1 || old(!(g.perSource[a] >= 1)))
+//@   modifies any
+
+//@ spec func rkey(g, a, id) = mkkey(g.reassembly, a, id)
+//@ spec func tabOK(g) = g.reassembly != nil && g.perSource != nil && len(g.reassembly) <= 4096
+//@     && forallStr(a, srcCount(g, a) <= 8 && (indom(g.perSource, a) ==> g.perSource[a] >= 1))
+//@     && forallStr(a, forall(id, 0, 256, indom(g.reassembly, rkey(g, a, id)) ==> entryOK(g.reassembly[rkey(g, a, id)]) && srcCount(g, a) >= 1))
+
+// proof hints where a chunk is stored / a chunk table is created
+//@ hook elemstore []uint8(s, i, v) in (*geckoPacketConn).acceptChunk
+//@   use CNTR_NIL(row(s, "base"), off(s), len(s))
+//@   use CNTR_BOUND(row(s, "base"), off(s), len(s))
+//@   use CNTR_HOLE(row(s, "base"), off(s), len(s), off(s) + i)
+//@   use CNTR_UPD(row(s, "base"), off(s), len(s), off(s) + i, base(v))
+
+//@ func (*geckoPacketConn).evictOldestLocked
+//@   props C14 C03
+//@   trusted
+//@   requires muHeld && tabOK(g)
+//@   ensures muHeld && tabOK(g) && (old(len(g.reassembly)) >= 1 ==> len(g.reassembly) == old(len(g.reassembly)) - 1)
+//@   modifies any
+
+//@ func (*geckoPacketConn).acceptChunk
+//@   props C14 C03
+//@   nonil
+//@   requires !muHeld && !isnil(addr) && h.totalChunks >= 2 && h.totalChunks <= 8 && h.chunkIdx < h.totalChunks
+//@   requires tabOK(g)
+//@   ensures !muHeld
+//@   ensures !ret1 ==> ret0 == nil
+//@   ensures ret1 ==> ret0 != nil && fresh(ret0)
+//@   ensures len(g.reassembly) <= 4096 && forallStr(a, srcCount(g, a) <= 8)
+//@   modifies any
+//@   loop 0
+//@     invariant muHeld && total == sumR(row(e.chunks, "len"), off(e.chunks), rangeindex + 1) && total >= 0
+//@     use SUMR_NONNEG(row(e.chunks, "len"), off(e.chunks), rangeindex + 2)
+//@     use SUMR_UB(row(e.chunks, "len"), off(e.chunks), rangeindex + 2)
+//@   loop 1
+//@     invariant muHeld && fresh(out) && len(out) == sumR(row(e.chunks, "len"), off(e.chunks), len(e.chunks))
+//@     invariant 0 <= off && off == sumR(row(e.chunks, "len"), off(e.chunks), rangeindex + 1)
+//@     use SUMR_MONO(row(e.chunks, "len"), off(e.chunks), rangeindex + 1, len(e.chunks))
+//@     use SUMR_MONO(row(e.chunks, "len"), off(e.chunks), rangeindex + 2, len(e.chunks))
